@@ -23,7 +23,7 @@ ASSUMPTIONS = [
     "pycomm3.socket_.socket (the module's reference to the socket module) is replaced by a scripted shim; the real Socket loops run unmodified",
     "one reply frame is in flight at a time (request/response lock step), so a chunk never carries bytes of a following frame",
 ]
-FLOORS = {"quick": {"recv-composition": 50000, "recv-fault": 3000, "send": 3000}, "thorough": {"recv-composition": 8000000, "recv-fault": 100000, "send": 100000}}
+FLOORS = {"quick": {"recv-composition": 50000, "recv-fault": 3000, "send": 3000}, "thorough": {"recv-composition": 5000000, "recv-fault": 40000, "send": 40000}}
 EXHAUSTIVE = False
 
 BODY_LENS = [0, 1, 2, 231, 232, 233, 488, 4000, 65511]
